@@ -4,6 +4,7 @@ import (
 	"bytes"
 	"fmt"
 	"io"
+	"sort"
 	"strings"
 
 	fflate "github.com/intel/fastgo/compress/flate"
@@ -185,7 +186,12 @@ func headerRunFaults() []namedStream {
 						}
 					}
 					starts[0] = true
+					var sorted []int
 					for s := range starts {
+						sorted = append(sorted, s)
+					}
+					sort.Ints(sorted)
+					for _, s := range sorted {
 						var raw [][2]int
 						for p := 0; p < s; p++ {
 							raw = append(raw, [2]int{want(p), 0})
